@@ -153,6 +153,8 @@ func buildSimFile() protoreflect.FileDescriptor {
 					method("Bidi", at, at, true, true, nil),
 					method("RestAll", at, at, false, false, httpRuleOpt(post("/sim/v1/all", "*"), 0)),
 					method("RestAllNSE", at, at, false, false, httpRuleOpt(post("/sim/v1/allnse", "*"), descriptorpb.MethodOptions_NO_SIDE_EFFECTS)),
+					// a binding without a body: path variable plus query parameters (the request body of an RPC client is drained, not forwarded)
+					method("RestGet", at, at, false, false, httpRuleOpt(get("/sim/v1/get/{string_value}"), 0)),
 				},
 			},
 			{
